@@ -1,1 +1,112 @@
-pub fn main(_args: &[String]) { eprintln!("codec: not built yet"); }
+// codec.rs -- K1: the library's codecs on the inputs of a codec case file, one result per line.
+//   encop put <k> <h> <size> | encop rm <k,k,..>      decop <hex>
+//   encidx <ver> <k=h:s;..>                            decidx <hex>
+//   keydec <kt> <hex>          keycmp <kt> <a> <b>     path <h>      unpath <c1/c2/c3>
+use std::alloc::{GlobalAlloc, Layout, System};
+use std::collections::BTreeMap;
+use std::num::NonZeroU64;
+use std::sync::atomic::{AtomicUsize, Ordering};
+
+use cassadilia::{BlobHash, KeyBytes, WalOpRaw};
+
+use crate::canon::{hex, unhex};
+
+pub struct Counting;
+static CUR: AtomicUsize = AtomicUsize::new(0);
+static PEAK: AtomicUsize = AtomicUsize::new(0);
+unsafe impl GlobalAlloc for Counting {
+    unsafe fn alloc(&self, l: Layout) -> *mut u8 {
+        let c = CUR.fetch_add(l.size(), Ordering::Relaxed) + l.size();
+        PEAK.fetch_max(c, Ordering::Relaxed);
+        unsafe { System.alloc(l) }
+    }
+    unsafe fn dealloc(&self, p: *mut u8, l: Layout) {
+        CUR.fetch_sub(l.size(), Ordering::Relaxed);
+        unsafe { System.dealloc(p, l) }
+    }
+    unsafe fn realloc(&self, p: *mut u8, l: Layout, n: usize) -> *mut u8 {
+        if n > l.size() {
+            let c = CUR.fetch_add(n - l.size(), Ordering::Relaxed) + (n - l.size());
+            PEAK.fetch_max(c, Ordering::Relaxed);
+        } else { CUR.fetch_sub(l.size() - n, Ordering::Relaxed); }
+        unsafe { System.realloc(p, l, n) }
+    }
+}
+fn measure<T>(f: impl FnOnce() -> T) -> (T, usize) {
+    let base = CUR.load(Ordering::Relaxed);
+    PEAK.store(base, Ordering::Relaxed);
+    let r = f();
+    (r, PEAK.load(Ordering::Relaxed).saturating_sub(base))
+}
+
+fn h32(s: &str) -> BlobHash { let mut a = [0u8; 32]; a.copy_from_slice(&unhex(s)); BlobHash::from_bytes(a) }
+fn derr(s: &str) -> &'static str {
+    if s.starts_with("UnexpectedEof") { "Eof" } else if s.starts_with("InsufficientData") { "Insufficient" } else if s.starts_with("InvalidVariantTag") { "BadTag" } else { "Other" }
+}
+fn op_str(o: &WalOpRaw) -> String {
+    match o {
+        WalOpRaw::Put { key_bytes, hash, size } => format!("put {} {} {}", hex(key_bytes), hex(hash.as_bytes()), size),
+        WalOpRaw::Remove { keys_bytes } => format!("rm {}", if keys_bytes.is_empty() { ".".to_string() } else { keys_bytes.iter().map(|k| hex(k)).collect::<Vec<_>>().join(",") }),
+    }
+}
+fn keydec<K: KeyBytes>(b: &[u8]) -> bool { K::from_key_bytes(b).is_some() }
+fn keycmp<K: KeyBytes + Ord>(a: &[u8], b: &[u8]) -> String {
+    match (K::from_key_bytes(a), K::from_key_bytes(b)) {
+        (Some(x), Some(y)) => format!("{:?}", x.cmp(&y)),
+        _ => "invalid".into(),
+    }
+}
+macro_rules! kt_dispatch {
+    ($kt:expr, $f:ident, $($a:expr),*) => { match $kt {
+        "bytes" => $f::<Vec<u8>>($($a),*), "string" => $f::<String>($($a),*), "arr4" => $f::<[u8; 4]>($($a),*),
+        "u8" => $f::<u8>($($a),*), "u16" => $f::<u16>($($a),*), "u32" => $f::<u32>($($a),*), "u64" => $f::<u64>($($a),*), "u128" => $f::<u128>($($a),*),
+        "i8" => $f::<i8>($($a),*), "i16" => $f::<i16>($($a),*), "i32" => $f::<i32>($($a),*), "i64" => $f::<i64>($($a),*), "i128" => $f::<i128>($($a),*),
+        o => panic!("bad kt {o}") } };
+}
+
+pub fn main(args: &[String]) {
+    std::panic::set_hook(Box::new(|_| {}));
+    let text = std::fs::read_to_string(&args[0]).expect("codec case file");
+    for (i, l) in text.lines().enumerate() {
+        let t: Vec<&str> = l.split_whitespace().collect();
+        if t.is_empty() { continue; }
+        let r = std::panic::catch_unwind(|| -> (String, usize) {
+            match t[0] {
+                "encop" => {
+                    let op = if t[1] == "put" { WalOpRaw::Put { key_bytes: unhex(t[2]), hash: h32(t[3]), size: t[4].parse().unwrap() } }
+                             else { WalOpRaw::Remove { keys_bytes: if t[2] == "." { vec![] } else { t[2].split(',').map(unhex).collect() } } };
+                    (hex(&cassadilia::verif::serialize_wal_op(&op)), 0)
+                }
+                "decop" => {
+                    let b = unhex(t[1]);
+                    let (r, peak) = measure(|| cassadilia::verif::deserialize_wal_op(&b));
+                    (match r { Ok(o) => format!("ok {}", op_str(&o)), Err(e) => format!("err {}", derr(&e)) }, peak)
+                }
+                "encidx" => {
+                    let mut m: BTreeMap<Vec<u8>, (BlobHash, u64)> = BTreeMap::new();
+                    if t.len() > 2 && t[2] != "." { for e in t[2].split(';') { let (k, v) = e.split_once('=').unwrap(); let (h, s) = v.split_once(':').unwrap(); m.insert(unhex(k), (h32(h), s.parse().unwrap())); } }
+                    (hex(&cassadilia::verif::serialize_index(&m, NonZeroU64::new(t[1].parse().unwrap()))), 0)
+                }
+                "decidx" => {
+                    let b = unhex(t[1]);
+                    let (r, peak) = measure(|| cassadilia::verif::deserialize_index(&b));
+                    (match r {
+                        Ok((es, v)) => format!("ok {} [{}]", v, es.iter().map(|(k, h, s)| format!("{}={}:{}", hex(k), hex(h.as_bytes()), s)).collect::<Vec<_>>().join(";")),
+                        Err(e) => format!("err {}", derr(&e)) }, peak)
+                }
+                "keydec" => { let b = unhex(t[2]); (if kt_dispatch!(t[1], keydec, &b) { "some".into() } else { "none".into() }, 0) }
+                "keycmp" => { let (a, b) = (unhex(t[2]), unhex(t[3])); (kt_dispatch!(t[1], keycmp, &a, &b), 0) }
+                "path" => (h32(t[1]).relative_path().to_str().unwrap().to_string(), 0),
+                "unpath" => {
+                    let p: std::path::PathBuf = t[1].split('/').map(|c| String::from_utf8(unhex(c)).unwrap()).collect();
+                    (match BlobHash::from_relative_path(&p) { Ok(h) => format!("ok {}", hex(h.as_bytes())), Err(_) => "err".into() }, 0)
+                }
+                o => panic!("bad codec line {o}"),
+            }
+        });
+        match r {
+            Ok((s, peak)) => println!("K {i} {} -> {s} peak={peak}", t[0]),
+            Err(_) => println!("K {i} {} -> PANIC peak=0", t[0]),
+        }
+    }
+}
